@@ -531,14 +531,26 @@ func r6ArgByTypeTotal(w *World, r *Report, rule string) {
 	sym := NewSym(w)
 	cond := pcZ
 	n := 0
-	for _, b := range f.Blocks {
-		if _, ok := b.Instrs[len(b.Instrs)-1].(*ssa.Panic); ok {
-			n++
-			cond = pcOrF(cond, sym.PathCond(f.Blocks[0], b, nil))
+	// the dispatch: getArgByType itself, or a helper of the package that is handed the kind
+	top := f
+	for _, g := range bodiesDeep(top, 1) {
+		if g.Pkg != top.Pkg || g.Parent() != nil {
+			continue
+		}
+		gn := 0
+		gc := pcZ
+		for _, b := range g.Blocks {
+			if _, ok := b.Instrs[len(b.Instrs)-1].(*ssa.Panic); ok {
+				gn++
+				gc = pcOrF(gc, sym.PathCond(g.Blocks[0], b, nil))
+			}
+		}
+		if gn > 0 && len(g.Blocks) > len(f.Blocks) || (gn > 0 && n == 0) {
+			f, n, cond = g, gn, gc
 		}
 	}
 	if n == 0 {
-		r.OK(rule, "getArgByType never panics", f.Pos(), "no panic in the function")
+		r.OK(rule, "getArgByType never panics", f.Pos(), "no panic in the dispatch")
 		return
 	}
 	// the subject the arms test: the kind parameter (read through its cell when a function literal captures it)
